@@ -16,6 +16,7 @@ func init() {
 		func(c *Ctx) {
 			c.run("C03-R1", "WHO-WRITES: cursor state is private to the buffer", c03R1)
 			c.run("C03-R2", "GUARD-DOM: cursor advance = bytes consumed, on every arm", c03R2)
+			c.run("C03-R6", "DATAFLOW: the Windows line filter's state survives from one chunk to the next", c03WinState)
 			c.run("C03-R3", "ORDER: no waiting while data is there", c03R3)
 			c.run("C03-R4", "FRESH: producers never rewrite a queued buffer", c03R4)
 			c.run("C03-R5", "MUST-PASS: the input pump queues exactly what each read returned and ends exactly on a read error", c03R5)
@@ -688,4 +689,60 @@ func c03R5(c *Ctx) {
 	c.check(hit == nil, "wrapTransferInput/ends-only-on-error", c.ipos(rd), "the pump ends only on the edge where the read reported an error", "the pump can end although the read succeeded: the transfer stops receiving input", c.pathStr(path)...)
 	hit, path = reachFromE(rd.Block(), instrIndex(rd)+1, func(in ssa.Instruction) bool { return in == ssa.Instruction(rd) }, nil, edgeHas(token.EQL, rerr, isNilConst))
 	c.check(hit == nil, "wrapTransferInput/error-ends-pump", c.ipos(rd), "after a read error the pump does not read again", "the pump keeps reading after a read error (spins on a closed input)", c.pathStr(path)...)
+}
+
+// c03WinState: readLineOnWindows filters console noise with a small state machine (inside an escape sequence? which
+// byte came before? may the next letter be a repeat?). An escape sequence can be cut by the transport anywhere, so
+// the state must be carried from the end of one chunk to the start of the next. Structurally: every non-index
+// variable of the per-byte loop enters that loop with a value that comes from the per-chunk loop's own variables —
+// not with a constant set again for each chunk (helpers the reference tree does not have are expanded first, so a
+// state struct or a filter function does not hide this).
+func c03WinState(c *Ctx) {
+	f := c.fn("trzszBuffer.readLineOnWindows")
+	nb := callsIn(f, idIs("(*trzsz.trzszBuffer).nextBuffer"))
+	if len(nb) == 0 {
+		c.lost("nextBuffer call in readLineOnWindows")
+	}
+	nbi := nb[0].(ssa.Instruction)
+	isHeader := func(b *ssa.BasicBlock) bool {
+		for _, p := range b.Preds {
+			if b.Dominates(p) {
+				return true
+			}
+		}
+		return false
+	}
+	n := 0
+	for _, b := range f.Blocks {
+		if !isHeader(b) || !nbi.Block().Dominates(b) || b == nbi.Block() {
+			continue
+		}
+		for _, in := range b.Instrs {
+			ph, ok := in.(*ssa.Phi)
+			if !ok {
+				break
+			}
+			if bt, isB := ph.Type().Underlying().(*types.Basic); isB && (bt.Kind() == types.Int || bt.Kind() == types.UntypedInt) {
+				continue // the loop index
+			}
+			n++
+			for i, e := range ph.Edges {
+				if b.Dominates(b.Preds[i]) {
+					continue // the back edge
+				}
+				_, isConst := e.(*ssa.Const)
+				c.check(!isConst, fmt.Sprintf("readLineOnWindows/state-carried-across-chunks.%d", n), c.ipos(nbi), "the filter state ("+varNameOf(ph)+") enters the per-byte loop with the value the previous chunk left", "a variable of the line filter is set to a constant again for every chunk: an escape sequence or a cursor move cut between two chunks is no longer recognised, the line depends on the chunking")
+			}
+		}
+	}
+	if n < 4 {
+		c.undecided("readLineOnWindows/state-carried-across-chunks", "the per-byte loop and its state variables were not found")
+	}
+}
+
+func varNameOf(ph *ssa.Phi) string {
+	if ph.Comment != "" {
+		return ph.Comment
+	}
+	return ph.Name()
 }
